@@ -83,6 +83,63 @@ func runC13(p *core.Prog, r *core.Report, tier string) {
 
 // ---------------------------------------------------------------- helpers
 
+// c13Anchors: the call classes the C13 rule tables talk about. They are never
+// spliced when a function is inlined for the path / error rules; every other
+// same-package helper (or local closure) is, so that extracting a run of
+// statements into a helper does not change a verdict.
+var c13Anchors = call(
+	"tsdb.SeriesPartition.insert", "tsdb.SeriesPartition.writeLogEntry", "tsdb.SeriesPartition.createSegment", "tsdb.SeriesPartition.openSegments",
+	"tsdb.SeriesPartition.Open", "tsdb.SeriesPartition.CreateSeriesListIfNotExists", "tsdb.SeriesPartition.DeleteSeriesID", "tsdb.NewSeriesPartition",
+	"tsdb.SeriesIndex.Insert", "tsdb.SeriesIndex.Delete", "tsdb.SeriesIndex.Recover", "tsdb.SeriesIndex.Open", "tsdb.SeriesIndex.Close", "tsdb.SeriesIndex.execEntry",
+	"tsdb.SeriesIndex.FindIDBySeriesKey", "tsdb.SeriesIndex.IsDeleted", "tsdb.SeriesIndex.FindOffsetByID",
+	"tsdb.SeriesSegment.Flush", "tsdb.SeriesSegment.Open", "tsdb.SeriesSegment.InitForWrite", "tsdb.SeriesSegment.CloseForWrite", "tsdb.SeriesSegment.WriteLogEntry",
+	"tsdb.SeriesSegment.ForEachEntry", "tsdb.SeriesSegment.MaxSeriesID", "tsdb.CreateSeriesSegment", "tsdb.SeriesSegmentHeader.WriteTo", "tsdb.SeriesIndexHeader.WriteTo",
+	"tsdb.AppendSeriesEntry", "tsdb.ReadSeriesEntry", "tsdb.IsValidSeriesEntryFlag", "tsdb.JoinSeriesOffset",
+	"tsdb.SeriesPartitionCompactor.compactIndexTo", "tsdb.SeriesPartitionCompactor.insertKeyIDMap", "tsdb.SeriesPartitionCompactor.insertIDOffsetMap",
+	"tsdb.SeriesFile.SeriesKeysPartitionIDs", "tsdb.SeriesFile.SeriesIDPartitionID", "tsdb.SeriesFile.SeriesKeyPartitionID",
+)
+
+// (no cache: the fault enumerator evaluates mutants concurrently)
+func c13Inl(f *core.Func) *core.Inlined { return f.Inline(c13Anchors) }
+
+// c13NotAfterFailureG is core.RuleNotAfterFailure on an explicit (inlined) graph;
+// an error forwarded by `return a(…)` inside a spliced helper is followed to the
+// test at the call site.
+func c13NotAfterFailureG(r *core.Report, g *core.Graph, f *core.Func, rule, aName string, a core.Matcher, bName string, b core.Matcher) bool {
+	as := g.Select(g.Calling(a))
+	if len(as) == 0 {
+		r.Bad(rule, f.String(), aName+":absent", f.Pos(), "no call of "+aName)
+		return false
+	}
+	ok := true
+	found := 0
+	for _, n := range as {
+		fail, _, has, exit := g.M4ErrEdgesVia(n)
+		if !has {
+			continue
+		}
+		found++
+		if exit {
+			continue
+		}
+		reach := g.Reach([]*core.Node{fail.To}, nil, nil)
+		for _, bn := range g.Select(g.Calling(b)) {
+			if reach[bn] {
+				r.Bad(rule, f.String(), bName+"-after-failed-"+aName, g.Line(bn), fmt.Sprintf("%s is reachable from the failure branch of %s (%s)", bName, aName, g.Line(n)))
+				ok = false
+			}
+		}
+	}
+	if found == 0 {
+		r.Bad(rule, f.String(), aName+":unchecked", g.Line(as[0]), "the error of "+aName+" is not tested by a following `!= nil` branch")
+		return false
+	}
+	if ok {
+		r.Ok(rule, f.String(), g.Line(as[0]), fmt.Sprintf("no %s on the failure branch of %s", bName, aName))
+	}
+	return ok
+}
+
 func x4Recv(f *core.Func) string {
 	if f.Decl.Recv != nil && len(f.Decl.Recv.List) == 1 && len(f.Decl.Recv.List[0].Names) == 1 {
 		return f.Decl.Recv.List[0].Names[0].Name
@@ -160,8 +217,8 @@ func x4Norm(f *core.Func, e ast.Expr) string {
 // between the call and its test, or on the failure branch, is reported). exempt
 // edges are cut as well (paths through them need not pass the call at all).
 func x4OnlyOnSuccess(g *core.Graph, n *core.Node, targets []*core.Node, exempt core.EdgePred) (ok, tested bool) {
-	_, succ, has := g.ErrEdges(n)
-	if !has {
+	_, succ, has, exit := g.M4ErrEdgesVia(n)
+	if !has || exit || succ == nil {
 		return false, false
 	}
 	reach := g.ReachFromEntry(nil, func(e *core.Edge) bool { return e == succ || (exempt != nil && exempt(e)) })
@@ -478,7 +535,7 @@ func c13Create(p *core.Prog, r *core.Report) {
 			}
 			r.Check(len(badX) == 0, rule3, name, "success-without-Flush", x4Lines(g, badX), "after a successful p.insert no success return is reachable without segment.Flush (fsync)")
 		}
-		core.RuleErrorsUsed(r, f, "create-errors", "insert/Flush", core.Or(insertM, flushM), false, 2)
+		core.RuleErrorsUsedInl(r, c13Inl(f), "create-errors", "insert/Flush", core.Or(insertM, flushM), false, 2)
 		core.RuleNotAfterFailure(r, f, rule3, "SeriesSegment.Flush", flushM, "index.Insert", idxInsM)
 		okS, tested := x4OnlyOnSuccess(g, flushes[0], idxIns, segNil)
 		r.Check(okS && tested && len(flushes) == 1, rule3, name, "index.Insert-without-successful-Flush", g.Line(idxIns[0]), "index.Insert is reachable only through the err == nil outcome of segment.Flush")
@@ -657,7 +714,7 @@ func c13Seq(p *core.Prog, r *core.Report) {
 				r.Check(okRet && len(ex) >= 1, rule, name, "returned-id", f.Pos(), "every success return yields that id")
 			}
 		}
-		core.RuleErrorsUsed(r, f, "create-errors", "writeLogEntry", wM, false, 1)
+		core.RuleErrorsUsedInl(r, c13Inl(f), "create-errors", "writeLogEntry", wM, false, 1)
 	}
 
 	// openSegments
@@ -742,7 +799,7 @@ func c13Seq(p *core.Prog, r *core.Report) {
 			}
 			r.Check(len(mxNodes) >= 1 && len(opens) >= 1 && !late, rule, name, "open-all<max", f.Pos(), "all existing segment files are opened before the maximum id is computed")
 		}
-		core.RuleErrorsUsed(r, f, "open-errors", "segment open/create", call("os.ReadDir", "tsdb.SeriesSegment.Open", "tsdb.CreateSeriesSegment"), false, 3)
+		core.RuleErrorsUsedInl(r, c13Inl(f), "open-errors", "segment open/create", call("os.ReadDir", "tsdb.SeriesSegment.Open", "tsdb.CreateSeriesSegment"), false, 3)
 	}
 
 	// constructor seeds seq from the partition id
@@ -806,7 +863,7 @@ func c13Seq(p *core.Prog, r *core.Report) {
 			return true
 		})
 		r.Check(okLoop, rule, f.String(), "partition-count", f.Pos(), "partitions 0..SeriesFilePartitionN-1 are created with their loop index as id")
-		core.RuleErrorsUsed(r, f, "open-errors", "SeriesPartition.Open", call("tsdb.SeriesPartition.Open"), false, 1)
+		core.RuleErrorsUsedInl(r, c13Inl(f), "open-errors", "SeriesPartition.Open", call("tsdb.SeriesPartition.Open"), false, 1)
 	}
 	if f := r.Need(p, tsdbP, "SeriesFile.CreateSeriesListIfNotExists"); f != nil {
 		info := f.Info()
@@ -825,7 +882,7 @@ func c13Seq(p *core.Prog, r *core.Report) {
 			}
 		}
 		r.Check(okArgs, rule, f.String(), "routing-args", f.Pos(), "every partition receives the keys together with the partition ids computed from those keys")
-		core.RuleErrorsUsed(r, f, "create-errors", "errgroup.Wait", call("golang.org/x/sync/errgroup.Group.Wait"), false, 1)
+		core.RuleErrorsUsedInl(r, c13Inl(f), "create-errors", "errgroup.Wait", call("golang.org/x/sync/errgroup.Group.Wait"), false, 1)
 	}
 }
 
@@ -839,28 +896,31 @@ func c13Tombstone(p *core.Prog, r *core.Report) {
 
 	if f := r.Need(p, tsdbP, "SeriesPartition.DeleteSeriesID"); f != nil {
 		info := f.Info()
-		g := f.Graph()
+		// path rules on the CFG with same-package helpers spliced in: the verdict does
+		// not depend on whether a run of statements lives in DeleteSeriesID itself
+		in := c13Inl(f)
+		g := in.G
 		wM := call("tsdb.SeriesPartition.writeLogEntry")
 		dM := call("tsdb.SeriesIndex.Delete")
-		core.RulePrecede(r, f, rule, "writeLogEntry", wM, "index.Delete", dM)
-		core.RuleNotAfterFailure(r, f, rule, "writeLogEntry", wM, "index.Delete", dM)
+		core.RulePrecedeG(r, g, f, rule, "writeLogEntry", wM, "index.Delete", dM)
+		c13NotAfterFailureG(r, g, f, rule, "writeLogEntry", wM, "index.Delete", dM)
 		if ws := x4Calls(g, wM); len(ws) == 1 {
 			okS, tested := x4OnlyOnSuccess(g, ws[0], x4Calls(g, dM), nil)
 			r.Check(okS && tested, rule, f.String(), "index.Delete-without-logged-tombstone", g.Line(ws[0]), "index.Delete is reachable only through the err == nil outcome of the tombstone write")
 		}
 		core.RuleMustPassN(r, f, g, rule, "index.Delete", g.Calling(dM), core.X4CallCond(info, isDelM, true))
-		core.RuleErrorsUsed(r, f, "delete-errors", "writeLogEntry/Flush", core.Or(wM, call("tsdb.SeriesSegment.Flush")), false, 2)
+		core.RuleErrorsUsedInl(r, c13Inl(f), "delete-errors", "writeLogEntry/Flush", core.Or(wM, call("tsdb.SeriesSegment.Flush")), false, 2)
 		idP := x4Param(f, "id")
 		okEntry := false
-		for _, c := range core.AllCalls(info, f.Decl.Body, call("tsdb.AppendSeriesEntry")) {
-			if len(c.Args) == 4 && core.X4ConstObj(info, c.Args[1]) == tombFlag && tombFlag != nil && core.ObjOf(info, c.Args[2]) == idP && idP != nil {
+		for _, c := range in.AllCalls(call("tsdb.AppendSeriesEntry")) {
+			if len(c.Args) == 4 && core.X4ConstObj(info, c.Args[1]) == tombFlag && tombFlag != nil && core.ObjOf(info, in.ArgOf(c.Args[2])) == idP && idP != nil {
 				okEntry = true
 			}
 		}
 		r.Check(okEntry, rule, f.String(), "tombstone-entry", f.Pos(), "the entry written is a SeriesEntryTombstoneFlag entry for the caller's id")
 		okDel := false
-		for _, c := range core.AllCalls(info, f.Decl.Body, dM) {
-			if len(c.Args) == 1 && core.ObjOf(info, c.Args[0]) == idP && idP != nil {
+		for _, c := range in.AllCalls(dM) {
+			if len(c.Args) == 1 && core.ObjOf(info, in.ArgOf(c.Args[0])) == idP && idP != nil {
 				okDel = true
 			}
 		}
@@ -967,7 +1027,7 @@ func c13Tombstone(p *core.Prog, r *core.Report) {
 			}
 			r.Check(!bad, rule, f.String(), "replay-skips-entry", lg.Line(lg.Entry), "every entry beyond maxOffset reaches execEntry")
 		}
-		core.RuleErrorsUsed(r, f, "open-errors", "ForEachEntry", call("tsdb.SeriesSegment.ForEachEntry"), false, 1)
+		core.RuleErrorsUsedInl(r, c13Inl(f), "open-errors", "ForEachEntry", call("tsdb.SeriesSegment.ForEachEntry"), false, 1)
 		segP := x4Param(f, "segments")
 		okRange := false
 		ast.Inspect(f.Decl.Body, func(n ast.Node) bool {
@@ -1136,7 +1196,7 @@ func c13Compact(p *core.Prog, r *core.Report) {
 		name := f.String()
 		ciM := call("tsdb.SeriesPartitionCompactor.compactIndexTo")
 		closeM, renM, openM, recM := call("tsdb.SeriesIndex.Close"), call("os.Rename"), call("tsdb.SeriesIndex.Open"), call("tsdb.SeriesIndex.Recover")
-		core.RuleErrorsUsed(r, f, "compaction-errors", "compactIndexTo/Close/Rename/Open/Recover", core.Or(ciM, closeM, renM, openM, recM), false, 5)
+		core.RuleErrorsUsedInl(r, c13Inl(f), "compaction-errors", "compactIndexTo/Close/Rename/Open/Recover", core.Or(ciM, closeM, renM, openM, recM), false, 5)
 		lit := core.X4LitWith(f, renM)
 		if r.Check(lit != nil, rule, name, "swap-section:absent", f.Pos(), "function literal performing the swap found") {
 			lg := f.LitGraph(lit)
@@ -1184,9 +1244,9 @@ func c13Compact(p *core.Prog, r *core.Report) {
 	if f := r.Need(p, tsdbP, "SeriesPartitionCompactor.compactIndexTo"); f != nil {
 		g := f.Graph()
 		createM, hdrM, wrM, syncM := call("os.Create"), call("tsdb.SeriesIndexHeader.WriteTo"), call("os.File.Write"), call("os.File.Sync")
-		core.RuleOrder(r, f, rule, []string{"os.Create", "header.WriteTo", "File.Write", "File.Sync"}, []core.Matcher{createM, hdrM, wrM, syncM})
+		core.X4OrderG(r, c13Inl(f).G, f, rule, []string{"os.Create", "header.WriteTo", "File.Write", "File.Sync"}, []core.Matcher{createM, hdrM, wrM, syncM})
 		core.RuleMustPassN(r, f, g, rule, "File.Sync", g.Calling(syncM), nil)
-		core.RuleErrorsUsed(r, f, "compaction-errors", "Create/WriteTo/Write/Sync/ForEachEntry", core.Or(createM, hdrM, wrM, syncM, call("tsdb.SeriesSegment.ForEachEntry")), false, 6)
+		core.RuleErrorsUsedInl(r, c13Inl(f), "compaction-errors", "Create/WriteTo/Write/Sync/ForEachEntry", core.Or(createM, hdrM, wrM, syncM, call("tsdb.SeriesSegment.ForEachEntry")), false, 6)
 		r.Check(len(x4Calls(g, wrM)) >= 2, rule, f.String(), "maps-written:count", f.Pos(), "both hash maps are written")
 		// the deferred Close is error-capturing
 		capt := false
@@ -1221,7 +1281,7 @@ func c13Open(p *core.Prog, r *core.Report) {
 			}
 			r.Check(okSeg, rule, f.String(), "recover-segments", lg.Line(lg.Entry), "Recover replays p.segments")
 		}
-		core.RuleErrorsUsed(r, f, "open-errors", "openSegments/InitForWrite/index.Open/Recover", core.Or(osM, initM, ioM, recM), false, 4)
+		core.RuleErrorsUsedInl(r, c13Inl(f), "open-errors", "openSegments/InitForWrite/index.Open/Recover", core.Or(osM, initM, ioM, recM), false, 4)
 	}
 	if f := r.Need(p, tsdbP, "SeriesSegment.InitForWrite"); f != nil {
 		info := f.Info()
@@ -1266,7 +1326,7 @@ func c13Open(p *core.Prog, r *core.Report) {
 			}
 		}
 		r.Check(okStop && nInv >= 1 && len(x4Calls(g, readM)) >= 1, rule, f.String(), "scan-stops-at-invalid", f.Pos(), "the size scan ends at the first entry whose flag is not valid")
-		core.RuleErrorsUsed(r, f, "open-errors", "OpenFile/Seek", core.Or(ofM, seekM), false, 2)
+		core.RuleErrorsUsedInl(r, c13Inl(f), "open-errors", "OpenFile/Seek", core.Or(ofM, seekM), false, 2)
 	}
 	if f := r.Need(p, tsdbP, "SeriesSegment.ForEachEntry"); f != nil {
 		g := f.Graph()
@@ -1321,9 +1381,9 @@ func c13Segment(p *core.Prog, r *core.Report) {
 		g := f.Graph()
 		w := core.LookupField(f.Pkg.Types, "SeriesSegment", "w")
 		noWriter := core.X4NilEdge(f.Info(), core.X4IsField(f.Info(), w), true)
-		core.RuleOrder(r, f, rule, []string{"bufio.Flush", "File.Sync"}, []core.Matcher{call("bufio.Writer.Flush"), call("os.File.Sync")})
+		core.X4OrderG(r, c13Inl(f).G, f, rule, []string{"bufio.Flush", "File.Sync"}, []core.Matcher{call("bufio.Writer.Flush"), call("os.File.Sync")})
 		core.RuleMustPassN(r, f, g, rule, "File.Sync", g.Calling(call("os.File.Sync")), noWriter)
-		core.RuleErrorsUsed(r, f, "create-errors", "Flush/Sync", call("bufio.Writer.Flush", "os.File.Sync"), false, 2)
+		core.RuleErrorsUsedInl(r, c13Inl(f), "create-errors", "Flush/Sync", call("bufio.Writer.Flush", "os.File.Sync"), false, 2)
 	}
 	if f := r.Need(p, tsdbP, "SeriesSegment.WriteLogEntry"); f != nil {
 		g := f.Graph()
@@ -1353,20 +1413,20 @@ func c13Segment(p *core.Prog, r *core.Report) {
 			}
 			r.Check(okRet, rule, f.String(), "offset-returned", f.Pos(), "the success return yields that offset")
 		}
-		core.RuleErrorsUsed(r, f, "create-errors", "bufio.Write", wrM, false, 1)
+		core.RuleErrorsUsedInl(r, c13Inl(f), "create-errors", "bufio.Write", wrM, false, 1)
 	}
 	if f := r.Need(p, tsdbP, "SeriesPartition.writeLogEntry"); f != nil {
-		core.RuleErrorsUsed(r, f, "create-errors", "createSegment/WriteLogEntry", call("tsdb.SeriesPartition.createSegment", "tsdb.SeriesSegment.WriteLogEntry"), false, 2)
-		core.RuleMustPass(r, f, "segment-write", "SeriesSegment.WriteLogEntry", call("tsdb.SeriesSegment.WriteLogEntry"), false)
+		core.RuleErrorsUsedInl(r, c13Inl(f), "create-errors", "createSegment/WriteLogEntry", call("tsdb.SeriesPartition.createSegment", "tsdb.SeriesSegment.WriteLogEntry"), false, 2)
+		core.RuleMustPassG(r, f, c13Inl(f).G, "segment-write", "SeriesSegment.WriteLogEntry", call("tsdb.SeriesSegment.WriteLogEntry"), false)
 	}
 	if f := r.Need(p, tsdbP, "SeriesPartition.createSegment"); f != nil {
-		core.RuleErrorsUsed(r, f, "create-errors", "CloseForWrite/Create/InitForWrite", call("tsdb.SeriesSegment.CloseForWrite", "tsdb.CreateSeriesSegment", "tsdb.SeriesSegment.InitForWrite"), false, 3)
-		core.RuleOrder(r, f, "segment-write", []string{"CreateSeriesSegment", "InitForWrite"},
+		core.RuleErrorsUsedInl(r, c13Inl(f), "create-errors", "CloseForWrite/Create/InitForWrite", call("tsdb.SeriesSegment.CloseForWrite", "tsdb.CreateSeriesSegment", "tsdb.SeriesSegment.InitForWrite"), false, 3)
+		core.X4OrderG(r, c13Inl(f).G, f, "segment-write", []string{"CreateSeriesSegment", "InitForWrite"},
 			[]core.Matcher{call("tsdb.CreateSeriesSegment"), call("tsdb.SeriesSegment.InitForWrite")})
 	}
 	if f := r.Need(p, tsdbP, "CreateSeriesSegment"); f != nil {
-		core.RuleOrder(r, f, "segment-write", []string{"header.WriteTo", "Truncate", "Sync", "Close", "Rename", "Open"},
+		core.X4OrderG(r, c13Inl(f).G, f, "segment-write", []string{"header.WriteTo", "Truncate", "Sync", "Close", "Rename", "Open"},
 			[]core.Matcher{call("tsdb.SeriesSegmentHeader.WriteTo"), call("os.File.Truncate"), call("os.File.Sync"), call("os.File.Close"), call("os.Rename"), call("tsdb.SeriesSegment.Open")})
-		core.RuleErrorsUsed(r, f, "create-errors", "segment file protocol", call("os.Create", "tsdb.SeriesSegmentHeader.WriteTo", "os.File.Truncate", "os.File.Sync", "os.Rename", "tsdb.SeriesSegment.Open"), false, 6)
+		core.RuleErrorsUsedInl(r, c13Inl(f), "create-errors", "segment file protocol", call("os.Create", "tsdb.SeriesSegmentHeader.WriteTo", "os.File.Truncate", "os.File.Sync", "os.Rename", "tsdb.SeriesSegment.Open"), false, 6)
 	}
 }
